@@ -119,6 +119,18 @@ def run(ctx):
                                 shown = "./" + n["rel"] if "path" in cols else n["name"]
                                 want.append(("[%s] %s" % (shown, mem["name"])).encode())
                     got = [rw[key] for rw in rows if rw[key].startswith(b"[")]
+                    # a member is a directory exactly when its name ends in a slash (zipfile's own rule)
+                    for colname in ("is_dir", "is_file"):
+                        if colname in cols:
+                            ci = cols.index(colname)
+                            for rw in rows:
+                                if rw[key].startswith(b"["):
+                                    isd = rw[key].endswith(b"/")
+                                    expect = (b"true" if isd else b"false") if colname == "is_dir" else (b"false" if isd else b"true")
+                                    if rw[ci] != expect:
+                                        ctx.oracle_fail("%s of an archive member does not follow its name (a trailing slash marks a directory)" % colname, case,
+                                                        detail={"member": rw[key].decode("utf-8", "replace"), "got": rw[ci].decode()})
+                                        break
                     if sorted(got) != sorted(want):
                         ctx.oracle_fail("archive members are not reported exactly once each", case,
                                         detail={"got": len(got), "want": len(want)})
